@@ -49,6 +49,8 @@ impl LfoHandle {
 
 impl Drop for LfoHandle {
 	fn drop(&mut self) {
+		#[cfg(feature = "verif-hooks")]
+		crate::verif::sync_point("modulator.removed.store");
 		self.shared.removed.store(true, Ordering::SeqCst);
 	}
 }
